@@ -382,6 +382,7 @@ pub fn gen_session(seed: u64, run: u64, _thorough: bool) -> Session {
         ops,
         crashes: Vec::new(),
         midload: Vec::new(),
+        midload_at: Vec::new(),
         decisions: None,
         hold: None,
         meta: json!({
